@@ -2,6 +2,7 @@
 //! usage: vcheck <ID> [--tier quick|thorough] [--replay FILE]
 mod common;
 mod exec;
+mod gen;
 mod vals;
 mod mpcx;
 mod props;
